@@ -26,13 +26,14 @@ type c06Case struct {
 	ClaimOwn   bool
 	ExtraVols  []string
 	ClaimNS    string
+	TmplIdent  bool  // the pod template itself names a hostname and a subdomain (ordinary PodSpec fields)
 	Presence   []int // per (ordinal, template): 0 neither, 1 API only (stale cache), 2 API and cache
 	Fault      world.FaultPlan
 	LookupFail string
 }
 
 func (c c06Case) String() string {
-	return fmt.Sprintf("set=%s %s claims=%v ownlabels=%v templateVolumes=%v claimTemplateNamespace=%q presence=%v fault=%v lookupFail=%q", c.Name, c.Policy, c.Claims, c.ClaimOwn, c.ExtraVols, c.ClaimNS, c.Presence, c.Fault, c.LookupFail)
+	return fmt.Sprintf("set=%s %s claims=%v ownlabels=%v templateVolumes=%v claimTemplateNamespace=%q templateHostname=%v presence=%v fault=%v lookupFail=%q", c.Name, c.Policy, c.Claims, c.ClaimOwn, c.ExtraVols, c.ClaimNS, c.TmplIdent, c.Presence, c.Fault, c.LookupFail)
 }
 
 const c06Ordinals = 3
@@ -44,6 +45,9 @@ func (c c06Case) spec() gen.Spec {
 func (c c06Case) build(w *world.World) *world.State {
 	sp := c.spec()
 	set := sp.Build()
+	if c.TmplIdent {
+		set.Spec.Template.Spec.Hostname, set.Spec.Template.Spec.Subdomain = "db", "elsewhere"
+	}
 	rev := gen.Revision(w, sp, 1).DeepCopy()
 	set.Status.CurrentRevision, set.Status.UpdateRevision, set.Status.ObservedGeneration = rev.Name, rev.Name, 1
 	st := world.NewState()
@@ -220,11 +224,14 @@ func init() {
 			own    bool
 			extra  []string
 			ns     string
+			ident  bool
 		}
-		lists := []cl{{nil, false, nil, ""}, {[]string{"data"}, false, nil, ""}, {[]string{"data", "logs"}, false, nil, ""}, {[]string{"data"}, true, nil, ""},
-			{[]string{"shared"}, false, []string{"shared", "scratch"}, ""}, {[]string{"data", "logs", "tmp"}, true, []string{"scratch"}, ""},
+		lists := []cl{{nil, false, nil, "", false}, {[]string{"data"}, false, nil, "", false}, {[]string{"data", "logs"}, false, nil, "", false}, {[]string{"data"}, true, nil, "", false},
+			{[]string{"shared"}, false, []string{"shared", "scratch"}, "", false}, {[]string{"data", "logs", "tmp"}, true, []string{"scratch"}, "", false},
 			// claim templates that carry a metadata.namespace of their own (the CRD does not validate template metadata)
-			{[]string{"data"}, false, nil, "staging"}, {[]string{"data", "logs"}, false, nil, world.NS}}
+			{[]string{"data"}, false, nil, "staging", false}, {[]string{"data", "logs"}, false, nil, world.NS, false},
+			// pod templates that name a hostname and a subdomain themselves
+			{nil, false, nil, "", true}, {[]string{"data"}, false, nil, "", true}}
 		deadline := explore.Deadline(100*time.Second, 15*time.Minute)
 		ch := make(chan func(w *world.World), 256)
 		var wg sync.WaitGroup
@@ -258,7 +265,7 @@ func init() {
 					maxFull = 9
 				}
 				for _, pol := range []string{"Parallel", "OrderedReady"} {
-					base := c06Case{Name: name, Policy: pol, Claims: l.claims, ClaimOwn: l.own, ExtraVols: l.extra, ClaimNS: l.ns}
+					base := c06Case{Name: name, Policy: pol, Claims: l.claims, ClaimOwn: l.own, ExtraVols: l.extra, ClaimNS: l.ns, TmplIdent: l.ident}
 					// presence patterns: full product when small, else all single and pair deviations from "neither" and from "both"
 					var pats [][]int
 					if nClaims <= maxFull {
@@ -329,7 +336,7 @@ func init() {
 				}
 				for k := 0; k < c06Ordinals; k++ {
 					k := k
-					c := c06Case{Name: name, Policy: "OrderedReady", Claims: l.claims, ClaimOwn: l.own, ExtraVols: l.extra, ClaimNS: l.ns}
+					c := c06Case{Name: name, Policy: "OrderedReady", Claims: l.claims, ClaimOwn: l.own, ExtraVols: l.extra, ClaimNS: l.ns, TmplIdent: l.ident}
 					submit(func(w *world.World) { c06History(rep, w, c, k) })
 					c2 := c
 					c2.Policy = "Parallel"
